@@ -231,6 +231,9 @@ class Call(Node):
             str
         """
         n, u = utility.analyze_number(value)
-        n = int(n * 100.0)
+        # 0.29 * 100.0 == 28.999999999999996: absorb the binary representation error
+        # instead of truncating, and keep a fractional percentage (0.125 -> 12.5%)
+        n = round(n * 100.0, 10)
+        n = int(n) if n == int(n) else n
         u = '%'
         return utility.with_unit(n, u)
